@@ -114,7 +114,35 @@ claim("C20", "model_checking", "Determinism is an invariant of the nondeterminis
       "TLA+ specs Run.tla / Detect.tla model-checked with TLC (determinism as invariant over all schedules); repeated "
       "replay of TLC-emitted inputs under schedule / order / location variation", "DESIGN.md §6 C20")
 
-for pid in ["C03", "C04", "C05", "C10", "C12", "C15", "C16", "C17"]:
+claim("C03", "model_checking", "TLC enumerates every file of Pairing.tla (sequence of code lines, string/markup decoys "
+      "holding tags, comments with 0..2 tags), checks the implementation-shaped stack machine (PushStart / PopEnd / "
+      "ErrUnexpectedEnd / ErrUnclosed / FinishSort) against the declarative well-nested matching (ErrIffUnbalanced, "
+      "PairsAreTheMatching, SourceOrder) and emits the expected pairs; every balanced file is rendered for each of the "
+      "39 suffixes in that language's comment forms with by-construction line, byte column and content bytes and "
+      "compared with `list` and with the content range of the block hook events.",
+      "Trusted: the language table (which spellings are comments in each language; three calibrated extents: Rust "
+      "///,//! and Markdown [//]: nodes include their line terminator; CR of CRLF after a line comment is gray). "
+      "tree-sitter grammars are black boxes. Markdown files are homogeneous (only [//]: or only HTML comments) "
+      "because of finding M1.",
+      "TLA+ spec Pairing.tla model-checked with TLC; spec->impl replay of every emitted file in 39 suffixes x comment "
+      "forms with constructed ground truth", "DESIGN.md §6 C03")
+claim("C05", "model_checking", "TLC enumerates every attribute list x layout x look-alike noise of TagSyntax.tla, checks the "
+      "token-level scanner (TryStart / TryEnd / SkipLt per '<' candidate) against the round-trip contract and emits the "
+      "expected attribute map (last duplicate wins); each case is rendered into a Rust block comment, a Python line "
+      "comment or a Markdown HTML comment and the listed attributes, line and byte column are compared. For this pure "
+      "function TLC contributes exhaustive generation and a derived oracle, not interleavings.",
+      "Trusted: the spelling tables of values and look-alikes (quoted values never contain their own quote; an "
+      "unterminated quote is placed in a comment of its own).",
+      "TLA+ spec TagSyntax.tla model-checked with TLC; spec->impl replay of every behaviour (bwexec, CLI sample)",
+      "DESIGN.md §6 C05")
+claim("C12", "model_checking", "Pairing.tla: TLC checks err = none <=> WellNested for every tag stream within the bounds; "
+      "every unbalanced file is rendered for each of the 39 suffixes, alone and among healthy files, and run in scan, "
+      "list, glob and diff mode: non-zero exit, an error naming the damaged file, no report or listing.",
+      "Trusted: language table as in C03.",
+      "TLA+ spec Pairing.tla model-checked with TLC; spec->impl replay of every unbalanced file (bwexec all, CLI sample)",
+      "DESIGN.md §6 C12")
+
+for pid in ["C04", "C10", "C15", "C16", "C17"]:
     NA[pid] = "check not built yet in this round (planned, see DESIGN.md §6); not a limit of the technique"
 
 
